@@ -9,6 +9,7 @@ import XrayProofs.LazyIntOps
 import XrayProofs.IntBinom
 import XrayProofs.IntDigits
 import XrayProofs.IntText
+import XrayProofs.IntLib
 namespace XrayModel.C14
 open XrayModel LB
 
@@ -346,6 +347,51 @@ theorem format_plain (a : LB) (ha : a.wf) (t : Option Char) (r : Nat)
     | long v => simp only [LB.magnitudeToStr, den_long]; rw [if_pos hr]
   rcases ht with h | h | h | h <;> cases h <;>
     simp [IntB.format, hm, toStrRadix, LB.isNegative]
+
+/-! ### the library functions written in xray (`include.rs`), hand model `XrayModel/IntLib.lean` -/
+
+/-- `gcd(a, b)` terminates and is the greatest common divisor (non-negative; `Int.gcd` is `Nat.gcd` of the magnitudes) -/
+theorem gcd_spec (a b : Int) : Lib.gcd a b = some ((Int.gcd a b : Nat) : Int) :=
+  LibP.gcd_spec a b
+
+/-- `gcd(0, 0) == 0`, as documented -/
+theorem gcd_zero_zero : Lib.gcd 0 0 = some 0 := by
+  rw [LibP.gcd_spec]; rfl
+
+/-- `lcm(a, b)` is the least common multiple (non-negative; 0 when either argument is 0) -/
+theorem lcm_spec (a b : Int) : Lib.lcm a b = some ((Int.lcm a b : Nat) : Int) :=
+  LibP.lcm_spec a b
+
+/-- `factorial(n)` is `n!` (for every `n` the `range` builtin can count, i.e. below 2^63) -/
+theorem factorial_spec (n : Nat) (hn : (n : Int) ≤ 9223372036854775807) :
+    Lib.factorial n 1 = .ok ((n.factorial : Nat) : Int) :=
+  LibP.factorial_spec n hn
+
+theorem factorial_negative (n step : Int) (hn : n < 0) :
+    Lib.factorial n step = .error "cannot get factorial of negative number" :=
+  LibP.factorial_negative n step hn
+
+/-- `floor_root(a, b)`: the bisection terminates and returns the `b`-th root rounded down -/
+theorem floor_root_spec (a b : Int) (ha : 0 ≤ a) (ha' : a + 1 ≤ 9223372036854775807) (hb : 1 ≤ b) :
+    ∃ r : Int, Lib.floorRoot a b = some (.ok r) ∧ 0 ≤ r ∧ r ^ b.toNat ≤ a ∧ a < (r + 1) ^ b.toNat :=
+  LibP.floorRoot_spec a b ha ha' hb
+
+/-- `ceil_root(a, b)`: the `b`-th root rounded up -/
+theorem ceil_root_spec (a b : Int) (ha : 1 ≤ a) (ha' : a ≤ 9223372036854775807) (hb : 1 ≤ b) :
+    ∃ r : Int, Lib.ceilRoot a b = some (.ok r) ∧ 1 ≤ r ∧ (r - 1) ^ b.toNat < a ∧ a ≤ r ^ b.toNat :=
+  LibP.ceilRoot_spec a b ha ha' hb
+
+/-- library `abs` and `sign` -/
+theorem lib_abs_sign (a : Int) : Lib.abs a = (a.natAbs : Int) ∧ Lib.sign a = a.sign := by
+  refine ⟨LibP.abs_eq a, ?_⟩
+  unfold Lib.sign
+  rcases Int.lt_trichotomy a 0 with h | h | h
+  · rw [Int.sign_eq_neg_one_iff_neg.mpr h, if_neg (by omega), if_pos h]
+  · subst h; rfl
+  · rw [Int.sign_eq_one_iff_pos.mpr h, if_pos h]
+
+example : Lib.floorRoot 1 2 = some (.ok 1) := by decide
+example : Lib.ceilRoot 2 2 = some (.ok 2) := by decide
 
 /-- non-vacuity: operands straddling 2^63 -/
 example : Correct (LB.mul (long 9223372036854775808) (short (-1))) (-9223372036854775808) :=
